@@ -83,6 +83,21 @@ func VerifyUnit(ld *Loaded, u *FuncUnit, cfg *Config) (res *UnitResult) {
 				x.assumeAllocated(st, v.L[k])
 			}
 		}
+		if pt, ok := p.Type().Underlying().(*types.Pointer); ok && v.Ptr == nil {
+			el := pt.Elem()
+			_, isSt := isStruct(el)
+			_, isArr := el.Underlying().(*types.Array)
+			if !isSt && !isArr {
+				// pointer to a non-struct value (*[]T, *int, ...): the function is verified with the
+				// pointee in a location of its own
+				v.Ptr = &PtrInfo{Kind: PLoc, T: el, Loc: Loc{Class: "p:" + typeKey(el), Idx: []*Term{v.L[0]}}}
+				if x.ptrTab == nil {
+					x.ptrTab = map[int]*PtrInfo{}
+				}
+				x.ptrTab[v.L[0].ID] = v.Ptr
+				x.assumed["pointer parameter "+p.Name()+" of "+fn.Name()+" points to a location not otherwise accessed by the function"] = true
+			}
+		}
 		fr.vals[p] = v
 		args = append(args, v)
 	}
